@@ -45,8 +45,8 @@ theorem IsSub.shift {pos : Nat} {src : List Char} {t : Tok} (skipped : List Char
   obtain ⟨pre, mid, suf, e, hm, hs, he⟩ := h
   exact ⟨skipped ++ pre, mid, suf, by rw [e]; simp [List.append_assoc], hm, by rw [hs, bytes_append]; omega, he⟩
 
-theorem lexFrom_sub (isWs isAlpha : Char → Bool) : ∀ (fuel pos : Nat) (src : List Char) (ts : List Tok),
-    lexFrom isWs isAlpha fuel pos src = .ok ts → ∀ t ∈ ts, IsSub pos src t := by
+theorem lexFrom_sub (isWs : Char → Bool) : ∀ (fuel pos : Nat) (src : List Char) (ts : List Tok),
+    lexFrom isWs fuel pos src = .ok ts → ∀ t ∈ ts, IsSub pos src t := by
   intro fuel
   induction fuel with
   | zero => intro pos src ts h; simp [lexFrom] at h
@@ -72,7 +72,7 @@ theorem lexFrom_sub (isWs isAlpha : Char → Bool) : ∀ (fuel pos : Nat) (src :
         · -- semicolon
           rename_i _ hsemi
           have hc : c = ';' := by simpa using hsemi
-          cases hl : lexFrom isWs isAlpha f (pos + 1) rest with
+          cases hl : lexFrom isWs f (pos + 1) rest with
           | err => simp [hl] at h
           | ok ts' =>
             simp [hl] at h; subst h
@@ -89,7 +89,7 @@ theorem lexFrom_sub (isWs isAlpha : Char → Bool) : ∀ (fuel pos : Nat) (src :
             generalize hb : spanP (fun d => d != '"') rest = sp at h hsp
             obtain ⟨body, after⟩ := sp
             have fin : ∀ (closing rest' : List Char) (ts' : List Tok), closing ++ rest' = after →
-                lexFrom isWs isAlpha f (pos + 1 + bytes body + bytes closing) rest' = .ok ts' →
+                lexFrom isWs f (pos + 1 + bytes body + bytes closing) rest' = .ok ts' →
                 t ∈ (⟨.string, pos, pos + 1 + bytes body + bytes closing⟩ : Tok) :: ts' → IsSub pos (c :: rest) t := by
               intro closing rest' ts' hcl hl ht2
               have hsrc : c :: rest = (c :: body ++ closing) ++ rest' := by
@@ -107,14 +107,14 @@ theorem lexFrom_sub (isWs isAlpha : Char → Bool) : ∀ (fuel pos : Nat) (src :
             cases after with
             | nil =>
               simp only at h
-              cases hl : lexFrom isWs isAlpha f (pos + 1 + bytes body + bytes []) [] with
+              cases hl : lexFrom isWs f (pos + 1 + bytes body + bytes []) [] with
               | err => simp [hl] at h
               | ok ts' =>
                 simp [hl] at h; subst h
                 exact fin [] [] ts' rfl hl ht
             | cons q r =>
               simp only at h
-              cases hl : lexFrom isWs isAlpha f (pos + 1 + bytes body + bytes [q]) r with
+              cases hl : lexFrom isWs f (pos + 1 + bytes body + bytes [q]) r with
               | err => simp [hl] at h
               | ok ts' =>
                 simp [hl] at h; subst h
@@ -134,7 +134,7 @@ theorem lexFrom_sub (isWs isAlpha : Char → Bool) : ∀ (fuel pos : Nat) (src :
               exact hsh
             · -- number-ish or name: same shape
               have key : ∀ (tt : TT) (ts' : List Tok) (body after : List Char), body ++ after = rest →
-                  lexFrom isWs isAlpha f (pos + c.utf8Size + bytes body) after = .ok ts' →
+                  lexFrom isWs f (pos + c.utf8Size + bytes body) after = .ok ts' →
                   t ∈ (⟨tt, pos, pos + c.utf8Size + bytes body⟩ : Tok) :: ts' → IsSub pos (c :: rest) t := by
                 intro tt ts' body after hsp hl ht2
                 rcases List.mem_cons.1 ht2 with rfl | ht'
@@ -148,32 +148,30 @@ theorem lexFrom_sub (isWs isAlpha : Char → Bool) : ∀ (fuel pos : Nat) (src :
               · have hsp := spanP_append (fun d => !isWs d) rest
                 generalize hb : spanP (fun d => !isWs d) rest = sp at h hsp
                 obtain ⟨body, after⟩ := sp
-                cases hl : lexFrom isWs isAlpha f (pos + c.utf8Size + bytes body) after with
+                cases hl : lexFrom isWs f (pos + c.utf8Size + bytes body) after with
                 | err => simp [hl] at h
                 | ok ts' =>
                   simp [hl] at h; subst h
                   exact key _ ts' body after hsp hl ht
-              · split at h
-                · have hsp := spanP_append (fun d => !isWs d) rest
-                  generalize hb : spanP (fun d => !isWs d) rest = sp at h hsp
-                  obtain ⟨body, after⟩ := sp
-                  cases hl : lexFrom isWs isAlpha f (pos + c.utf8Size + bytes body) after with
-                  | err => simp [hl] at h
-                  | ok ts' =>
-                    simp [hl] at h; subst h
-                    exact key _ ts' body after hsp hl ht
-                · simp at h
+              · have hsp := spanP_append (fun d => !isWs d) rest
+                generalize hb : spanP (fun d => !isWs d) rest = sp at h hsp
+                obtain ⟨body, after⟩ := sp
+                cases hl : lexFrom isWs f (pos + c.utf8Size + bytes body) after with
+                | err => simp [hl] at h
+                | ok ts' =>
+                  simp [hl] at h; subst h
+                  exact key _ ts' body after hsp hl ht
 
 /-- Every token of every text is the byte range of a contiguous non-empty run of whole characters:
     no slice starts or ends inside a multi-byte character, or beyond the end of the text. -/
-theorem c11_tokens_are_substrings (isWs isAlpha : Char → Bool) (src : List Char) (ts : List Tok)
-    (h : lex isWs isAlpha src = .ok ts) : ∀ t ∈ ts, IsSub 0 src t :=
-  lexFrom_sub isWs isAlpha _ 0 src ts h
+theorem c11_tokens_are_substrings (isWs : Char → Bool) (src : List Char) (ts : List Tok)
+    (h : lex isWs src = .ok ts) : ∀ t ∈ ts, IsSub 0 src t :=
+  lexFrom_sub isWs _ 0 src ts h
 
-theorem c11_token_bounds (isWs isAlpha : Char → Bool) (src : List Char) (ts : List Tok)
-    (h : lex isWs isAlpha src = .ok ts) : ∀ t ∈ ts, t.start < t.stop ∧ t.stop ≤ bytes src := by
+theorem c11_token_bounds (isWs : Char → Bool) (src : List Char) (ts : List Tok)
+    (h : lex isWs src = .ok ts) : ∀ t ∈ ts, t.start < t.stop ∧ t.stop ≤ bytes src := by
   intro t ht
-  obtain ⟨pre, mid, suf, e, hm, hs, he⟩ := c11_tokens_are_substrings isWs isAlpha src ts h t ht
+  obtain ⟨pre, mid, suf, e, hm, hs, he⟩ := c11_tokens_are_substrings isWs src ts h t ht
   have hpos : 0 < bytes mid := by
     cases mid with
     | nil => exact absurd rfl hm
@@ -181,8 +179,73 @@ theorem c11_token_bounds (isWs isAlpha : Char → Bool) (src : List Char) (ts : 
   rw [e, bytes_append, bytes_append]
   omega
 
+theorem spanP_snd_length (p : Char → Bool) : ∀ (l : List Char), (spanP p l).2.length ≤ l.length := by
+  intro l
+  induction l with
+  | nil => simp [spanP]
+  | cons c rest ih =>
+    simp only [spanP]
+    split
+    · simp only [List.length_cons]; omega
+    · simp
+
+/-- The lexer's step budget (one step per character, plus one) always suffices, and since every
+    character now starts some token the lexer is total: it returns a token list for EVERY text and
+    terminates within `length + 1` steps (each step consumes at least one character). -/
+theorem lexFrom_total (isWs : Char → Bool) : ∀ (fuel pos : Nat) (src : List Char),
+    src.length < fuel → ∃ ts, lexFrom isWs fuel pos src = .ok ts := by
+  intro fuel
+  induction fuel with
+  | zero => intro pos src h; omega
+  | succ f ih =>
+    intro pos src h
+    cases src with
+    | nil => exact ⟨[], by simp [lexFrom]⟩
+    | cons c rest =>
+      simp only [List.length_cons] at h
+      have hr : rest.length < f := by omega
+      simp only [lexFrom]
+      split
+      · split
+        · exact ih _ _ hr
+        · exact ih _ _ (by have := spanP_snd_length (fun d => isAsciiWs d && d != '\n') rest; omega)
+      · split
+        · obtain ⟨ts, e⟩ := ih (pos + 1) rest hr
+          exact ⟨_, by rw [e]⟩
+        · split
+          · have hl := spanP_snd_length (fun d => d != '"') rest
+            generalize spanP (fun d => d != '"') rest = sp at hl
+            obtain ⟨body, after⟩ := sp
+            cases after with
+            | nil =>
+              obtain ⟨ts, e⟩ := ih (pos + 1 + bytes body + bytes ([] : List Char)) [] (by simp; omega)
+              exact ⟨_, by simp only []; rw [e]⟩
+            | cons q r =>
+              obtain ⟨ts, e⟩ := ih (pos + 1 + bytes body + bytes [q]) r (by first | (simp at hl ⊢; omega) | (simp at hl; omega))
+              exact ⟨_, by simp only []; rw [e]⟩
+          · split
+            · have hl := spanP_snd_length (fun d => d != '\n') rest
+              generalize spanP (fun d => d != '\n') rest = sp at hl
+              obtain ⟨body, after⟩ := sp
+              exact ih _ _ (by first | (simp at hl ⊢; omega) | (simp at hl; omega))
+            · split
+              · have hl := spanP_snd_length (fun d => !isWs d) rest
+                generalize spanP (fun d => !isWs d) rest = sp at hl
+                obtain ⟨body, after⟩ := sp
+                obtain ⟨ts, e⟩ := ih (pos + c.utf8Size + bytes body) after (by first | (simp at hl ⊢; omega) | (simp at hl; omega))
+                exact ⟨_, by simp only []; rw [e]⟩
+              · have hl := spanP_snd_length (fun d => !isWs d) rest
+                generalize spanP (fun d => !isWs d) rest = sp at hl
+                obtain ⟨body, after⟩ := sp
+                obtain ⟨ts, e⟩ := ih (pos + c.utf8Size + bytes body) after (by first | (simp at hl ⊢; omega) | (simp at hl; omega))
+                exact ⟨_, by simp only []; rw [e]⟩
+
+theorem c11_lex_total (isWs : Char → Bool) (src : List Char) : ∃ ts, lex isWs src = .ok ts :=
+  lexFrom_total isWs _ 0 src (by omega)
+
 /-! non-vacuity: the historical crashers lex to well-placed tokens -/
-example : lex isWsUnicode isAlphaApprox "é".toList = .ok [⟨.name, 0, 2⟩] := by decide
-example : lex isWsUnicode isAlphaApprox "# ü\nA ;".toList = .ok [⟨.name, 5, 6⟩, ⟨.semi, 7, 8⟩] := by decide
+example : lex isWsUnicode "é".toList = .ok [⟨.name, 0, 2⟩] := by decide
+example : lex isWsUnicode "# ü\nA ;".toList = .ok [⟨.name, 5, 6⟩, ⟨.semi, 7, 8⟩] := by decide
 
 end L21.LefLex
+
